@@ -440,6 +440,177 @@ fn check_histories(spec: &RuleSpec, depth: usize) -> Stats {
     st
 }
 
+// ---- long example lists -------------------------------------------------------------------
+// The pair enumeration above keeps the lists at 0-2 entries. Here the *length* is the dimension:
+// lists of 3..100 entries (around every power of two a size-dependent shortcut could pick), every
+// split between positives and negatives, one failing entry at the first / middle / last position
+// or none. The rules include the ones whose optimised form is known to decide some documents
+// differently (double negation, reordered conjunctions), so a validate() that consults another
+// form of the rule than matches() does is visible.
+fn long_list_rules() -> Vec<(String, Vec<MObj>)> {
+    let r = |det: &str, cond: &str| format!("detection:\n{}  condition: {}\ntrue_positives: []\ntrue_negatives: []\n", det, cond);
+    let docs = vec![
+        MObj::new(),
+        MObj::new().with("f", s("ab")),
+        MObj::new().with("f", s("x")),
+        MObj::new().with("g", s("x")),
+        MObj::new().with("f", s("ab")).with("g", s("x")),
+        MObj::new().with("n", mdoc::obj(vec![("x", s("b"))])),
+        MObj::new().with("n", mdoc::obj(vec![("x", s("a"))])).with("f", s("ab")),
+        MObj::new().with("f", mdoc::MVal::Int(1)),
+    ];
+    vec![
+        (r("  A: {f: 'a*'}\n", "A"), docs.clone()),
+        (r("  A: {'not(f)': x}\n", "not A"), docs.clone()),
+        (r("  A: {g: x}\n  B: {'not(f)': 'a*'}\n", "A and not B"), docs.clone()),
+        (r("  A:\n  - {f: 'a*'}\n  - {n: {x: a}, f: 'a*'}\n", "not A"), docs.clone()),
+        (r("  A: {n: {x: a}}\n  B: {f: '*b', g: x}\n", "not (A and B)"), docs.clone()),
+        (r("  A: {f: ['a*', '*b', '?x']}\n  B: {g: x}\n", "A or B"), docs.clone()),
+        (r("  A: {'int(f)': 1}\n", "A or int(f) == 1"), docs.clone()),
+    ]
+}
+
+fn long_lists(th: bool) -> Stats {
+    let lens: Vec<usize> = if th { vec![3, 4, 7, 8, 9, 15, 16, 17, 31, 32, 33, 63, 64, 65, 100, 128, 129, 256, 257] } else { vec![3, 8, 15, 16, 17, 32, 33, 64, 65, 100] };
+    let rules = long_list_rules();
+    let parts: Vec<Stats> = rules
+        .par_iter()
+        .map(|(yaml, docs)| {
+            let mut st = Stats::default();
+            let base = match eng::load(yaml) {
+                Ok(r) => r,
+                Err(_) => return st,
+            };
+            let base_y: Y = serde_yaml::from_str(yaml).unwrap();
+            let pos: Vec<&MObj> = docs.iter().filter(|d| eng::matches(&base, *d) == Ok(true)).collect();
+            let neg: Vec<&MObj> = docs.iter().filter(|d| eng::matches(&base, *d) == Ok(false)).collect();
+            if pos.is_empty() || neg.is_empty() {
+                return st;
+            }
+            st.nontrivial += 1;
+            for &len in &lens {
+                for (np, nn) in [(len, 0), (0, len), (len / 2, len - len / 2), (1, len - 1), (len - 1, 1)] {
+                    // which entry fails: none, or one positive / negative at first, middle, last
+                    let mut fails: Vec<Option<(bool, usize)>> = vec![None];
+                    for k in [0, np / 2, np.saturating_sub(1)] {
+                        if np > 0 {
+                            fails.push(Some((true, k)));
+                        }
+                    }
+                    for k in [0, nn / 2, nn.saturating_sub(1)] {
+                        if nn > 0 {
+                            fails.push(Some((false, k)));
+                        }
+                    }
+                    fails.dedup();
+                    for fail in fails {
+                        // entries: cycle through the matching / non-matching documents, each with a unique marker
+                        let mut tp: Vec<(MObj, String)> = vec![];
+                        let mut tn: Vec<(MObj, String)> = vec![];
+                        for i in 0..np {
+                            let src = if fail == Some((true, i)) { neg[i % neg.len()] } else { pos[i % pos.len()] };
+                            let mut d = src.clone();
+                            let m = format!("markp{}x", i);
+                            d.set("zz", s(&m));
+                            tp.push((d, m));
+                        }
+                        for i in 0..nn {
+                            let src = if fail == Some((false, i)) { pos[i % pos.len()] } else { neg[i % neg.len()] };
+                            let mut d = src.clone();
+                            let m = format!("markn{}x", i);
+                            d.set("zz", s(&m));
+                            tn.push((d, m));
+                        }
+                        let mut v = base_y.clone();
+                        if let Y::Mapping(m) = &mut v {
+                            m.insert(Y::String("true_positives".into()), Y::Sequence(tp.iter().map(|(d, _)| Y::Mapping(mdoc::to_yaml_map(d))).collect()));
+                            m.insert(Y::String("true_negatives".into()), Y::Sequence(tn.iter().map(|(d, _)| Y::Mapping(mdoc::to_yaml_map(d))).collect()));
+                        }
+                        let text = serde_yaml::to_string(&v).unwrap_or_default();
+                        let rule = match catch(|| Rule::from_value(v)) {
+                            Ok(Ok(r)) => r,
+                            _ => {
+                                st.push_violation(Violation {
+                                    signature: "long-example-lists:rule-with-well-formed-examples-does-not-load".into(),
+                                    witness: format!("{} positives {} negatives ; rule {}", np, nn, one_line(yaml)),
+                                    replay: json!({"kind":"validate","rule_yaml":text}),
+                                });
+                                continue;
+                            }
+                        };
+                        for sw in [0u8, 0b1111, 0b0010] {
+                            let r = if sw == 0 {
+                                rule.clone()
+                            } else {
+                                match eng::optimise_with(&rule, sw, &[]) {
+                                    Ok((r, _)) => r,
+                                    Err(_) => continue,
+                                }
+                            };
+                            let mut failing: Vec<&String> = vec![];
+                            let mut passing: Vec<&String> = vec![];
+                            for (d, m) in &tp {
+                                if eng::matches(&r, d) == Ok(true) { passing.push(m) } else { failing.push(m) }
+                            }
+                            for (d, m) in &tn {
+                                if eng::matches(&r, d) == Ok(false) { passing.push(m) } else { failing.push(m) }
+                            }
+                            let got = catch(|| r.validate());
+                            st.states += 1;
+                            st.transitions += 1 + (np + nn) as u64;
+                            st.traces += 1;
+                            st.evaluations += 1;
+                            let bad: Option<&str> = match &got {
+                                Err(_) => Some("validate-panics"),
+                                Ok(Ok(true)) => if failing.is_empty() { None } else { Some("ok-although-an-example-fails") },
+                                Ok(Ok(false)) => Some("returns-Ok(false)"),
+                                Ok(Err(e)) => {
+                                    let msg = format!("{}", e);
+                                    if failing.is_empty() {
+                                        Some("error-although-every-example-passes")
+                                    } else if !matches!(e.kind(), ErrorKind::Validation) {
+                                        Some("error-is-not-a-validation-error")
+                                    } else if tp.iter().chain(tn.iter()).any(|(_, m)| msg.contains(m.as_str())) {
+                                        if failing.iter().any(|m| !msg.contains(m.as_str())) {
+                                            Some("error-does-not-name-a-failing-example")
+                                        } else if passing.iter().any(|m| msg.contains(m.as_str())) {
+                                            Some("error-names-a-passing-example")
+                                        } else {
+                                            None
+                                        }
+                                    } else {
+                                        None
+                                    }
+                                }
+                            };
+                            if let Some(kind) = bad {
+                                st.push_violation(Violation {
+                                    signature: format!("long-example-lists:{}", kind),
+                                    witness: format!(
+                                        "{} positives, {} negatives, failing entry {:?} ; switches {} ; validate() = {} ; failing by matches(): {:?} ; rule {}",
+                                        np, nn, fail, eng::sw_name(sw),
+                                        match &got { Ok(Ok(b)) => format!("Ok({})", b), Ok(Err(e)) => format!("Err({})", e).chars().take(160).collect(), Err(m) => format!("PANIC {}", m) },
+                                        failing.iter().take(4).collect::<Vec<_>>(), one_line(yaml)
+                                    ),
+                                    replay: json!({"kind":"validate","rule_yaml":text,"sw_bits":sw}),
+                                });
+                            }
+                        }
+                    }
+                }
+            }
+            st
+        })
+        .collect();
+    let mut st = Stats::default();
+    for p in parts {
+        st.merge(p);
+    }
+    st.count("long_list_rules", rules.len() as u64);
+    st.count("long_list_lengths", lens.len() as u64);
+    st
+}
+
 pub fn run(tier: Tier) -> i32 {
     let mut rep = Report::new("C13", tier);
     let th = tier.thorough();
@@ -453,6 +624,8 @@ pub fn run(tier: Tier) -> i32 {
     for p in parts {
         rep.stats.merge(p);
     }
+    // example lists of 3..100 (thorough 257) entries
+    rep.stats.merge(long_lists(th));
     // histories over one rule value
     let hspecs: Vec<&RuleSpec> = specs.iter().step_by(if th { 3 } else { 11 }).collect();
     let depth = if th { 4 } else { 3 };
